@@ -563,8 +563,13 @@ func c19BoundedReads(c *Ctx, ge *GuardEngine) {
 		}
 		got := ""
 		for _, cf := range cs {
-			if cf.Callee != nil && FuncName(cf.Callee) == "rhp/v4.withDecoder" && len(cf.Args) >= 2 {
-				got = cf.Args[1]
+			if cf.Callee != nil && FuncName(cf.Callee) == "rhp/v4.withDecoder" {
+				// the limit is the integer parameter, wherever it stands
+				for i, prm := range cf.Callee.Params {
+					if b, ok := prm.Type().Underlying().(*types.Basic); ok && b.Info()&types.IsInteger != 0 && i < len(cf.Args) {
+						got = cf.Args[i]
+					}
+				}
 			}
 		}
 		ok := mustRe(pat(e.want)).MatchString(got)
